@@ -1,4 +1,5 @@
 import N0Verif.Proofs.Esc
+import N0Verif.Proofs.EscRef
 import N0Verif.Proofs.Ini
 /-!
 # C17 — delimited list / key=value text decodes to what was encoded
@@ -688,6 +689,79 @@ text, where `C17_no_escape_is_split` applies -/
 theorem C17_maxsplit_escape_example :
     splitWithEscape "a\\;b;c;d".toList [';'] 1 (some '\\') true = .ok ["a;b;c;d".toList] := by
   decide
+
+/-! ## maxsplit counts real cuts — open finding C17-j
+
+"With an escape character, a delimiter preceded by an odd run of escapes stays inside its item and
+the result never depends on neighbouring items … (maxsplit included)".  The reference `splitRef`
+(`Model/Esc.lean`) scans the characters once and counts only REAL cuts.  The code splits with
+`str.split(delimiter, maxsplit)` first, so an *escaped* delimiter among the first `maxsplit`
+occurrences uses up one split; the repair the code has for this case (`if maxsplit and maxsplit+1 <
+len(separated_items) and delimiter in separated_items[-1]`: re-split the remainder once) can never
+fire for `maxsplit ≥ 1` — the list has at most `maxsplit + 1` items.  Whether the boundary `c;d` is
+cut then depends on an escape in a NEIGHBOURING item. -/
+
+/-- the statement as the property reads (kept visible; **false** on the pinned code:
+`C17_split_maxsplit_real_cuts_cex`) -/
+def C17_split_maxsplit_real_cuts_stmt : Prop :=
+  ∀ (s d : Str) (m : Nat) (e : Char) (tr : Bool), d ≠ [] →
+    splitWithEscape s d m (some e) tr = splitRef s d m (some e) tr
+
+/-- **C17-j (open).**  Smallest witness `'\\;;'`, maxsplit 1: one real cut is expected
+(`[';', '']`), the code returns the text unsplit (`[';;']`).  The same text without the escaped
+delimiter in the neighbouring item, `';'`, is cut.  The witnesses of the finding: `'a\\;b;c;d'` with
+maxsplit 2 gives `['a;b', 'c;d']` (two real cuts expected: `['a;b', 'c', 'd']`), with maxsplit 1
+`['a;b;c;d']` (expected `['a;b', 'c;d']`). -/
+theorem C17_split_maxsplit_real_cuts_cex :
+    splitWithEscape ['\\', ';', ';'] [';'] 1 (some '\\') true = .ok [[';', ';']] ∧
+    splitRef ['\\', ';', ';'] [';'] 1 (some '\\') true = .ok [[';'], []] ∧
+    splitWithEscape [';'] [';'] 1 (some '\\') true = .ok [[], []] ∧
+    splitWithEscape ['a', '\\', ';', 'b', ';', 'c', ';', 'd'] [';'] 2 (some '\\') true
+      = .ok [['a', ';', 'b'], ['c', ';', 'd']] ∧
+    splitRef ['a', '\\', ';', 'b', ';', 'c', ';', 'd'] [';'] 2 (some '\\') true
+      = .ok [['a', ';', 'b'], ['c'], ['d']] ∧
+    splitRef ['a', '\\', ';', 'b', ';', 'c', ';', 'd'] [';'] 1 (some '\\') true
+      = .ok [['a', ';', 'b'], ['c', ';', 'd']] ∧
+    ¬ C17_split_maxsplit_real_cuts_stmt := by
+  refine ⟨by decide, by decide, by decide, by decide, by decide, by decide, ?_⟩
+  intro h
+  have := h ['\\', ';', ';'] [';'] 1 '\\' true (by decide)
+  revert this
+  decide
+
+/-- **Outside the class of C17-j the code IS the character-level reference** — for every text,
+non-empty delimiter (odd ones included), maxsplit, escape character and trim flag such that no
+escaped delimiter is met while real cuts are limited and still allowed (`escWithin`, decided by the
+same scan as the reference).  Unbounded; with `C17_split_maxsplit_real_cuts_cex` this locates the
+defect exactly in the class. -/
+theorem C17_split_real_cuts_partial (s d : Str) (m : Nat) (e : Char) (tr : Bool) (hd : d ≠ [])
+    (h : escWithin e d (limOf m) 0 [] s = false) :
+    splitWithEscape s d m (some e) tr = splitRef s d m (some e) tr := by
+  rw [C17_general_spec s d m e tr hd, splitRef, if_neg hd, refAux_eq_specG e d tr s (limOf m) 0 [] h]
+  rfl
+
+/-- without maxsplit (`None` / `0`) the class is empty: the code is the reference -/
+theorem C17_split_real_cuts_no_maxsplit (s d : Str) (e : Char) (tr : Bool) (hd : d ≠ []) :
+    splitWithEscape s d 0 (some e) tr = splitRef s d 0 (some e) tr :=
+  C17_split_real_cuts_partial s d 0 e tr hd (escWithin_none e d s 0 [])
+
+-- non-vacuity: a limited split outside the class (the escaped delimiter comes after the budget is used up /
+-- no escape at all), and the witness of the finding inside it
+example : escWithin '\\' [';'] (limOf 1) 0 [] ['a', ';', 'b', '\\', ';', 'c', ';', 'd'] = false := by decide
+example : escWithin '\\' [';'] (limOf 2) 0 [] ['a', ';', 'b', ';', 'c'] = false := by decide
+example : escWithin '\\' [';'] (limOf 1) 0 [] ['\\', ';', ';'] = true := by decide
+example : escWithin '\\' [';'] (limOf 2) 0 [] ['a', '\\', ';', 'b', ';', 'c', ';', 'd'] = true := by decide
+
+-- outside the class of C17-j the code and the reference agree (no maxsplit; no escaped delimiter
+-- among the first maxsplit delimiters; delimiter of two characters; escape-free text)
+example : splitWithEscape ['a', '\\', ';', 'b', ';', 'c', ';', 'd'] [';'] 0 (some '\\') true
+    = splitRef ['a', '\\', ';', 'b', ';', 'c', ';', 'd'] [';'] 0 (some '\\') true := by decide
+example : splitWithEscape ['a', ';', 'b', '\\', ';', 'c', ';', 'd'] [';'] 1 (some '\\') true
+    = splitRef ['a', ';', 'b', '\\', ';', 'c', ';', 'd'] [';'] 1 (some '\\') true := by decide
+example : splitRef ['a', '!', '!', ':', ':', 'b', '!', ':', ':', 'c'] [':', ':'] 0 (some '!') true
+    = .ok [['a', '!'], ['b', ':', ':', 'c']] := by decide
+example : splitRef ['a', ';', 'b', ';', 'c'] [';'] 1 (some '\\') false = .ok [['a'], ['b', ';', 'c']] := by decide
+example : splitRef ['a'] [] 1 (some '\\') false = .error .ValueError := by decide
 
 /-! ## non-vacuity -/
 
